@@ -61,7 +61,9 @@ PROPS["C13"] = {
         {"pkg": "types", "name": "VerifC13_Names", "quick": {}, "thorough": {},
          "bounds": {"replicas": "every n in [1,128] (fork)", "replica numbers": "symbolic 0<=i<j<n"}},
         {"pkg": "app", "name": "VerifC13_Scale1", "quick": {"d": 0}, "thorough": {"d": 1}, "native": False,
-         "bounds": {"initial replicas": "{1,2,3}, each running / completed / in its restart back-off", "scale target": "{-1,0,1,2,3,9,10,11}", "requests": 1, "templates": "command and description reference PC_REPLICA_NUM and a global variable"}},
+         "bounds": {"initial replicas": "{1,2,3}, each running / completed", "scale target": "{-1,0,1,2,3,9,10,11}", "requests": 1, "templates": "command and description reference PC_REPLICA_NUM and a global variable"}},
+        {"pkg": "app", "name": "VerifC13_Scale1Backoff", "quick": {"d": 0}, "thorough": {"d": 1}, "native": False,
+         "bounds": {"initial replicas": "{1,2,3}, each running / completed / waiting out its restart back-off", "scale target": "{1,2,3}", "requests": 1}},
         {"pkg": "app", "name": "VerifC13_Scale2", "thorough": {"d": 0, "wall": 3000}, "native": False,
          "bounds": {"requests": 2}},
         {"pkg": "app", "name": "VerifC13_Scale100", "quick": {"d": 0}, "thorough": {"d": 0}, "native": False,
